@@ -231,24 +231,31 @@ Proof.
   change (Z.of_N e_success) with 0%Z. destruct (rc =? 0)%Z; reflexivity.
 Qed.
 
-(* ---------------- dec_validate_replay: replay_insert's outcome x the retry exemption ----------------
+(* ---------------- dec_validate_replay: replay_insert's outcome x the retry exemption x the FRESH clock ----------------
    ins = replay_insert's result (0 inserted, > 0 already there, < 0 failure), en = errno after it, c = the request's
-   c->is_replay_new on entry.  A credential that is already there is accepted exactly when retries are enabled and
-   0 < retry <= MUNGE_SOCKET_RETRY_ATTEMPTS.  c->is_replay_new is set exactly when THIS call inserted the record
-   (third component of the result); an allowed replay leaves it as it was. *)
+   c->is_replay_new on entry, clk = the clock read AFTER the insert (time_t; -1 = time () failed).
+   A credential that is already there is accepted exactly when retries are enabled and
+   0 < retry <= MUNGE_SOCKET_RETRY_ATTEMPTS.  A credential that was NOT there (the insert succeeded) is accepted only if
+   it has not expired by the fresh clock reading: clk <= time0 + ttl (ttl as capped by dec_validate_time) - otherwise
+   EMUNGE_CRED_EXPIRED, the inserted record stays and c->is_replay_new is NOT set.  c->is_replay_new is set exactly when
+   this call inserted the record and accepted the credential; an allowed replay leaves it as it was. *)
 Definition replay_exempt (cf : conf) (m : msg) : bool :=
   cf_socket_retry cf && (0 <? m_retry m) && (m_retry m <=? c_retry_attempts).
 
-Theorem dec_validate_replay_is_source : forall (cf : conf) (ins en c : Z) (m : msg),
-  src_dec_validate_replay cf ins en c m =
-  ((if (ins =? 0)%Z then 0
+Theorem dec_validate_replay_is_source : forall (cf : conf) (clk ins en c : Z) (m : msg),
+  src_dec_validate_replay cf clk ins en c m =
+  ((if (ins =? 0)%Z then (if (clk =? -1)%Z then e_snafu
+                          else if (clk >? Z.of_N (m_time0 m) + Z.of_N (m_ttl m))%Z then e_cred_expired else 0)
     else if (ins >? 0)%Z then (if replay_exempt cf m then 0 else e_cred_replayed)
-    else if (en =? 12)%Z then e_no_memory else e_snafu), m, (if (ins =? 0)%Z then 1 else c)%Z).
+    else if (en =? 12)%Z then e_no_memory else e_snafu), m,
+   (if (ins =? 0)%Z && negb (clk =? -1)%Z && negb (clk >? Z.of_N (m_time0 m) + Z.of_N (m_ttl m))%Z then 1 else c)%Z).
 Proof.
-  intros cf ins en c m. unfold src_dec_validate_replay, replay_exempt.
+  intros cf clk ins en c m. unfold src_dec_validate_replay, replay_exempt.
   cbn beta iota zeta.
-  destruct (ins =? 0)%Z; [reflexivity|]. cbn beta iota.
-  destruct (ins >? 0)%Z; cbn beta iota.
-  - norm2. destruct (cf_socket_retry cf && (0 <? m_retry m) && (m_retry m <=? c_retry_attempts)); reflexivity.
-  - destruct (en =? 12)%Z; reflexivity.
+  destruct (ins =? 0)%Z; cbn beta iota; cbn [andb].
+  - destruct (clk =? -1)%Z; cbn beta iota; cbn [negb andb]; [reflexivity|].
+    destruct (clk >? Z.of_N (m_time0 m) + Z.of_N (m_ttl m))%Z; reflexivity.
+  - destruct (ins >? 0)%Z; cbn beta iota.
+    + norm2. destruct (cf_socket_retry cf && (0 <? m_retry m) && (m_retry m <=? c_retry_attempts)); reflexivity.
+    + destruct (en =? 12)%Z; reflexivity.
 Qed.
